@@ -189,13 +189,14 @@ CLAIMED = {
  "C10": dict(
    text="Lean theorems (Echse.Props.C10) about the transcribed byte/line/component layers of the push parser (esccpy, _ical_pull "
         "with the stash and its mark, the component state machine of _ical_proc, push/pull/last_pull and the callers' "
-        "protocol): stash indices stay below 1024 and every pull terminates for ALL byte strings and chunkings; for inputs "
-        "without backslashes and without over-long lines the sequence of unfolded lines acted upon and of instructions is "
-        "the same for EVERY partition into chunks. The real parser (ECHSE_VERIF hook reporting the lines it acts upon) is "
+        "protocol): every pull terminates for ALL byte strings and chunkings; for inputs "
+        "without backslashes, lines of any length, the sequence of unfolded lines acted upon and of instructions is "
+        "the same for EVERY partition into chunks, and the lines acted upon are exactly the input's non-empty logical lines "
+        "(no_line_passed_over: the stash grows since the repair of D191). The real parser (ECHSE_VERIF hook reporting the lines it acts upon) is "
         "fed generated and damaged calendars under byte-wise, every-split-position and random chunkings with ASan; all "
         "chunkings must yield the same instruction dump as the whole input, and lines/verbs are compared with the model.",
    note="Trusted: Lean kernel; harness hx_strm.c; keyword tables regenerated from the .erf files; the meaning of property lines "
-        "(snarf_fld, make_task) is compared through the dump only (C05). Chunkings include the empty push by which echsd ends the input (theorems chunk_independent_eof*, repair D148); the command line tool is run on generated files around its 64 KiB reads (repair D149). Chunk independence is proved and checked for every input without backslash, over-long lines included (a line that does not fit the stash is passed over as a whole since the repair of D18d). KNOWN FINDING D17 (backslash escapes).",
+        "(snarf_fld, make_task) is compared through the dump only (C05). Chunkings include the empty push by which echsd ends the input (theorems chunk_independent_eof*, repair D148); the command line tool is run on generated files around its 64 KiB reads (repair D149). Chunk independence is proved and checked for every input without backslash, lines of up to 9 KiB generated (the stash grows with the line, repairs D18d and D191; a failed allocation - the remaining `skip` branch - is not modelled). KNOWN FINDING D17 (backslash escapes).",
    technique="Lean 4 proof (invariant over the stash + induction over the partition) + differential chunking check with a source hook",
    design="§5 C10"),
  "C17": dict(
